@@ -57,6 +57,14 @@ impl ManifestPack {
 
         let header =
             reader.parse_block_at::<ManifestPackHeader>(Offset::from(PackHeader::BLOCK_SIZE))?;
+        // The pack infos lie just before the check info.
+        if header.pack_count.into_u64() * PackInfo::BLOCK_SIZE as u64
+            > pack_header.check_info_pos.into_u64()
+        {
+            return Err(format_error!(
+                "Manifest declares more packs than what fits before its check info"
+            ));
+        }
         let pack_offsets = PackOffsetsIter::new(pack_header.check_info_pos, header.pack_count);
         let mut directory_pack_info = None;
         let mut pack_infos: Vec<PackInfo> = Vec::with_capacity(header.pack_count.into_usize());
@@ -81,7 +89,8 @@ impl ManifestPack {
             pack_header,
             header,
             reader,
-            directory_pack_info: directory_pack_info.unwrap(),
+            directory_pack_info: directory_pack_info
+                .ok_or_else(|| -> Error { format_error!("Manifest has no directory pack") })?,
             pack_infos,
             check_info: OnceLock::new(),
             value_store,
